@@ -306,6 +306,8 @@ var sqKOther = []sqKFrame{
 	{"call-arg", "( s:list i:1 □ )"},
 	{"and", "( s:and s:true □ )"},
 	{"then-self-call", "( s:begin □ ( s:cond ( s:< s:n i:1 ) s:acc ( s:ff ( s:- s:n i:1 ) ) ) )"},
+	{"template-part", "( s:syntaxQuote ( s:a ( s:unquote □ ) [ ( s:unquote s:acc ) ] ) )"},
+	{"return-several", "( s:return i:1 □ )"},
 }
 
 const sqKPrelude = "( s:def s:acc i:0 ) ( s:def s:i i:100 ) ( s:def s:j i:200 ) ( s:def s:r i:0 ) ( s:def s:q i:0 ) ( s:def s:n i:2 )"
